@@ -39,6 +39,8 @@ inductive Prim where
   | matchFin (r : Nat)                      -- match $_ref_r.Finished()
   | beginScope (s : Nat)
   | endScope (s : Nat)
+  -- body of a `when` case (Models/GroupExpandWhen.lean): `send <marker event n>()`
+  | send (n : Nat)
   deriving Repr, BEq, DecidableEq, Inhabited
 
 /-- `for idx, element in enumerate(and_group["elements"]): label; match; goto end` -/
